@@ -41,13 +41,19 @@ def mk(kind, scripts, late, leaver, sched, react=None, leaver_first=False, closi
         # producers push, the FINISHED subscription of U2 is unsubscribed as ordinary clean-up: U0 stays subscribed throughout
         init = [["sub", 2, 0], ["complete", 0] if closing == "reuse-c" else ["error", 0, 5], ["sub", 0, 0]]
         threads.append(["u", ["unsub", 2]])
+    if closing is not None and closing.startswith("newrace-"):
+        # a plain Subject is closed by one thread while another subscribes U1; afterwards the (re-usable) subject is pushed to once
+        # more: U1 either was in time for the terminal, or it is a subscriber of the re-used subject and receives the push
+        threads.append(["s", ["sub", 1, 0]])
+        threads.append(["x", ["complete", 0] if closing == "newrace-c" else ["error", 0, 5]])
+        fini = [["next", 0, 777]]
     if late and closing is None:
         threads.append(["s", ["sub", 1, 0]])
     if closing is not None and closing.startswith("race-"):
         # no producers: a thread closes the subject while another one subscribes U1 - whichever comes first, U1 ends with that terminal
         threads.append(["s", ["sub", 1, 0]])
         threads.append(["x", ["complete", 0] if closing == "race-c" else ["error", 0, 5]])
-    elif closing is not None and not closing.startswith("reuse-"):
+    elif closing is not None and not closing.startswith("reuse-") and not closing.startswith("newrace-"):
         # the producers' threads have finished; the subject is closed; only then does U1 subscribe: a ReplaySubject hands it every
         # item ever pushed (once, in push order) and the terminal, a BehaviorSubject the terminal alone
         fini = [["complete", 0] if closing == "c" else ["error", 0, 5], ["sub", 1, 0]]
@@ -88,6 +94,10 @@ def generate(rng, tier, seed):
                 cases.append(mk(kind, [], True, False, ["pct", 3, base, 300 if thorough else 100], closing=cases[-1]["closing"]))
             if kind[1] in ("replay", "behavior") and rng.random() < 0.5:
                 cases.append(mk(kind, scripts, True, False, ["random", base, 20 if thorough else 8], closing=rng.choice(["c", "e"])))
+            if kind[1] == "subject" and rng.random() < 0.6:
+                cl = rng.choice(["newrace-c", "newrace-e"])
+                cases.append(mk(kind, [], False, False, ["random", base, 200 if thorough else 80], closing=cl))
+                cases.append(mk(kind, [], False, False, ["pct", 3, base, 200 if thorough else 80], closing=cl))
             if kind[1] == "subject" and rng.random() < 0.6:
                 cases.append(mk(kind, scripts, False, False, ["random", base, 30 if thorough else 12], closing=rng.choice(["reuse-c", "reuse-e"])))
     return cases
@@ -130,6 +140,15 @@ def judge_one(case, ob):
     for u in (0, 1, 2):
         mine = [c for c in cbs if c[0] == u]
         closing = case.get("closing")
+        if closing and closing.startswith("newrace-"):
+            want = closing[-1]
+            evs = [[str(x) for x in c[1]] for c in mine]
+            if u == 0 and [e_[0] for e_ in evs] != [want]:
+                bad.append("U0 was subscribed when the subject was closed with '%s' but received %s" % (want, evs))
+            if u == 1 and evs not in ([[want] + ([] if want == "c" else ["5"])], [["n", "777"]]):
+                bad.append("U1 subscribed while the subject was being closed with '%s': it received %s - neither the terminal nor the item pushed afterwards" % (want, evs))
+            logs[u] = []
+            continue
         if closing and closing.startswith("reuse-"):
             if u == 2:
                 if [c[1][0] for c in mine] != [closing[-1]]:
